@@ -6,7 +6,7 @@
 From Coq Require Import Reals List ZArith Bool Lra.
 From Flocq Require Import Raux.
 From Alpaqa Require Import Num NumR Vec Prox ProxProofs SolverStatus SolverKernels SolverKernelsProofs DescentProofs
-                           StopChain StopChainProofs PanocOcp PanocOcpProofs PanocOcpLoop PanocOcpLoopProofs.
+                           StopChain StopChainProofs PanocOcp PanocOcpProofs PanocOcpLoop PanocOcpLoopProofs PanocOcpE2E.
 Import ListNotations.
 Local Open Scope R_scope.
 
@@ -186,6 +186,27 @@ Section PANOCOCP.
     0 < Linit -> p_Lmax P <= Linit * 2 ^ nL -> (1 / 2) ^ nT < p_tau_min P ->
     (ls_pass_bound nL nT <= ls_fuel)%nat -> pass_ s <> PFuel.
   Proof. exact (reachable_pass_never_out_of_fuel X QR DS fwd sim bwd cvals gn_step lb_apply lb_update lb_reset N nu Ulb Uub Dlb Dub stop_req time_up P u_in y_in μ errz_in X0 ds0 ls_fuel). Qed.
+
+  (* dimensions are preserved: when the backward oracle, the Gauss-Newton oracle and the L-BFGS oracle return N·nu-vectors and the initial
+     guess has N·nu entries, so do the inputs of the iterate at the final stop check (hence, by consistency, its gradient, step and û) *)
+  Theorem PANOCOCP_final_inputs_have_full_length : length Ulb = nu -> length Uub = nu ->
+    (forall u x, length (fst (bwd u x)) = (N * nu)%nat) ->
+    (forall j u x qr mask q, length (gn_step j u x qr mask q) = (N * nu)%nat) ->
+    (forall ds q γ J, length (snd (fst (lb_apply ds q γ J))) = (N * nu)%nat) ->
+    length u_in = (N * nu)%nat ->
+    forall fuel o, run fuel = Done o -> length (iu (out_final o)) = (N * nu)%nat.
+  Proof. exact (run_final_length X QR DS fwd sim bwd cvals gn_step lb_apply lb_update lb_reset N nu Ulb Uub Dlb Dub stop_req time_up P u_in y_in μ errz_in X0 ds0 ls_fuel). Qed.
+
+  (* a run whose first stop check meets the tolerance (L_0 given and >= L_max: no initial backtracking) returns Converged with 0 iterations *)
+  Theorem PANOCOCP_converged_at_first_check : forall fuel ε, 0 < p_L0 P -> p_Lmax P <= p_L0 P ->
+    Eps_of (first_iterate X fwd N nu Ulb Uub P (fst (fst (fst (init_L X QR fwd sim bwd P u_in X0))))) = Some ε -> ε <= eff_tol (o_tol P) ->
+    exists o, run (S fuel) = Done o /\ out_status o = StConverged /\ out_iterations o = 0%nat /\
+              out_final o = first_iterate X fwd N nu Ulb Uub P (fst (fst (fst (init_L X QR fwd sim bwd P u_in X0)))).
+  Proof. exact (run_converged_at_start X QR DS fwd sim bwd cvals gn_step lb_apply lb_update lb_reset N nu Ulb Uub Dlb Dub stop_req time_up P u_in y_in μ errz_in X0 ds0 ls_fuel). Qed.
+
+  (* the step size is positive at every stop check when Lγ_factor, L_min, L_max are *)
+  Theorem PANOCOCP_initial_L_positive : 0 < p_Lmin P -> 0 < p_Lmax P -> 0 < Linit.
+  Proof. exact (L_init_pos X QR fwd sim bwd P u_in X0). Qed.
 End PANOCOCP.
 
 Print Assumptions PANOCOCP_invariant_at_every_stop_check.
@@ -208,6 +229,9 @@ Print Assumptions PANOCOCP_exits_at_max_iter.
 Print Assumptions PANOCOCP_no_logic_error.
 Print Assumptions PANOCOCP_linesearch_terminates.
 Print Assumptions PANOCOCP_pass_never_out_of_fuel.
+Print Assumptions PANOCOCP_final_inputs_have_full_length.
+Print Assumptions PANOCOCP_converged_at_first_check.
+Print Assumptions PANOCOCP_initial_L_positive.
 
 (* non-vacuity: the hypothesis `run fuel = Done o` is satisfiable over R (a concrete run: N = nu = 1, constant oracles, max_iter = 0,
    L_0 = L_max = 1): the run ends at the first stop check, status not Busy, and returns û = u + (−γ·∇ψ) *)
